@@ -610,6 +610,16 @@ static LinkedList *bufr_repl_descriptors
             bufr_abort( errmsg );
             }
 /*
+ * a descriptor that sat in a replication occurring zero times only has a placeholder value,
+ * made before the operators of that replication were in force: let it be made again, with 
+ * the type its encoding now calls for, unless it carries something (a template default)
+ */
+         if ((cb->flags & FLAG_IGNORED) && desc->value && bufr_value_is_missing( desc->value ))
+            {
+            bufr_free_value( desc->value );
+            desc->value = NULL;
+            }
+/*
  * removed the skipped flag if it was previously expanded with 0 replication
 
 */
